@@ -35,11 +35,17 @@ func gCorpus(c *Ctx, mode int) []*corpus.Spec {
 			want[s.Name] = true
 		}
 	default:
-		for _, n := range []string{"expr_std", "expr_nonassoc", "etf", "lvalue", "sep_ba", "nqlalr", "list_null", "opt_mid", "prec_mixed", "nullseq_OM", "etf_basefirst", "dangling_else", "len4", "len10", "stmts12", "redecl", "rlist", "split_groups", "nullable_chain3", "big200", "rlist_basefirst", "alias_follow", "mod_op"} {
+		for _, n := range []string{"expr_std", "expr_nonassoc", "etf", "lvalue", "sep_ba", "nqlalr", "list_null", "opt_mid", "prec_mixed", "nullseq_OM", "etf_basefirst", "dangling_else", "len4", "len10", "stmts12", "redecl", "rlist", "split_groups", "nullable_chain3", "big200", "rlist_basefirst", "alias_follow", "mod_op", "same_actions"} {
 			want[n] = true
 		}
 	}
 	for _, s := range all {
+		if s.HasTag("go-only-actions") {
+			continue // action bodies in Go syntax (C10 reads them); no TypeScript rendering
+		}
+		if s.SameActions && mode == 0 {
+			continue // needs the rule-numbering guard of gParse
+		}
 		if s.HasTag("big") && mode == 0 {
 			// the 200-state grammar is there for the state-number encoding (C01 C02 C06 C07,
 			// C03, C09); the pairwise and history harnesses would spend minutes on it
@@ -77,6 +83,29 @@ func gParse(c *Ctx, mode int, tag string) {
 	}
 	specs := gCorpus(c, mode)
 	c.classifyLALR(y, specs)
+	{
+		// grammars whose actions log the driver's rule number need yaccgo's numbering = file order
+		var same []*corpus.Spec
+		for _, s := range specs {
+			if s.SameActions {
+				same = append(same, s)
+			}
+		}
+		if len(same) > 0 {
+			dumps, _ := c.DumpAll(y, same)
+			var keep []*corpus.Spec
+			for _, s := range specs {
+				if s.SameActions {
+					if r := dumps[s.Name]; !(r.OK && r.Dump != nil && rulesInFileOrder(s, r.Dump)) {
+						c.Outside = append(c.Outside, "grammar "+s.Name+" (identical action texts) left out: this tree does not number the rules in file order")
+						continue
+					}
+				}
+				keep = append(keep, s)
+			}
+			specs = keep
+		}
+	}
 	variants := GoVariants
 	g, err := c.Generate(y, specs, append(append([]string{}, variants...), "ts"), map[string]string{"zz_verif_step.go": stepSentinel})
 	if err != nil {
@@ -174,7 +203,7 @@ func gParse(c *Ctx, mode int, tag string) {
 	if nStep > 0 {
 		c.Harnesses = append(c.Harnesses, "harness/gen/step.go.txt:VerifStep (emitted next to each generated Go parser)")
 		c.Bound("step lemma, inputs of any length: from every configuration whose stack spells a path of the emitted automaton (depth <= %d, up to %d slots, stale slots arbitrary, values arbitrary int64) and every lookahead code, the emitted Go driver performs exactly the LR machine's moves over the emitted table until the next token request / accept / error (%d grammar-variant pairs); parses whose stack grows beyond %d entries are outside this lemma (they are covered up to N tokens by the exploration from the initial configuration)", D, D, nStep, D)
-		c.Assumptions = append(c.Assumptions, "step lemma: the driver's append-vs-overwrite behaviour depends on the slice length only through the comparison with the stack pointer (gosym does not model capacity: a pointer kept across a reallocating append would not be seen)")
+		c.Assumptions = append(c.Assumptions, "step lemma: slices in gosym are host slices (length, capacity and aliasing after append follow the Go runtime's growth policy for the interpreter's element size - the same doubling as the real element type for the sizes explored)")
 	} else if g.NoStep != "" {
 		c.Outside = append(c.Outside, "step lemma not established on this tree (the harness writes the driver's stack variables by name and they changed: "+g.NoStep+")")
 	}
